@@ -27,14 +27,15 @@
    PROVED: per frame (c06_video_nals, c06_video_frame_ts, c06_video_message,
      c06_adts_frames, c06_rtp_video / _aac / _raw) and over whole message
      sequences with ANY observer (c06_stream_chains, c06_ts_timestamps,
-     c06_audio_frames, c06_patpmt_first, c06_ts_stream_partial,
-     c06_hls_concat_partial).
-   MISSING LINKS (the _partial names): (1) that every emitted buffer is a byte
-     string with time stamps below 2^64 is assumed in c06_ts_stream_partial
-     (not threaded through the sequence-header parsers); (2) the HLS statement
-     is for hls.Muxer fed sequentially (C10's model has no observer; the
-     re-entrant FlushAudio from OnFragmentOpen is only in the executable
-     composition checked by the c06.e2e correspondence op); (3) the join-point
+     c06_audio_frames, c06_patpmt_first, c06_ts_stream, c06_hls_concat,
+     c06_hls_group, c06_observer_view).
+   MISSING LINKS: (1) the decomposition of each demultiplexed access unit of
+     c06_ts_stream into the published units is proved per frame
+     (c06_video_frame_ts / c06_video_message, c06_audio_frames + c06_audio_pes)
+     and not restated as one formula over the whole stream; (2) c06_hls_group is
+     about the model of the group's wiring (RemuxGroup.v, compared with the
+     real logic.Group by the c06.e2e op), the HTTP-TS subscriber part of that
+     model is compared, not specified; (3) the join-point
      clause for HTTP-TS / RTSP consumers rests on C01/C02's fan-out theorems at
      unit level and is not re-proved here on bytes; (4) the RTSP analysis phase
      (which message triggers the SDP) is modelled and compared, the theorems
@@ -48,7 +49,8 @@ From Lal Require Import Common.LBytes Common.Res Group.GroupMsg
   Hls.HlsMuxer Hls.HlsConsistent Hls.HlsLossProofs
   Remux.RemuxTsTimestamp Remux.RemuxRtmp2Ts Remux.RemuxTsFilter Remux.RemuxRtmp2Rtp Remux.RemuxSpec
   Remux.RemuxVideoProofs Remux.RemuxAudioProofs Remux.RemuxStepProofs Remux.RemuxChainProofs Remux.RemuxBatchProofs
-  Remux.RemuxRunProofs Remux.RemuxFrameProofs Remux.RemuxRtpProofs Remux.RemuxDemuxProofs.
+  Remux.RemuxRunProofs Remux.RemuxFrameProofs Remux.RemuxRtpProofs Remux.RemuxDemuxProofs
+  Remux.RemuxWfProofs Remux.RemuxRunWfProofs Remux.RemuxGroup Remux.RemuxObsProofs Remux.RemuxGroupProofs.
 Open Scope N_scope.
 
 (* ======================================================================== *)
@@ -278,9 +280,12 @@ Print Assumptions c06_patpmt_first.
    reference demultiplexer (which does not know the frame boundaries) give one
    access unit per emitted frame of the track, in order: PID, stream id, PTS /
    DTS + 63000 mod 2^33, random-access mark, byte-identical payload
-   ([expected_units]).  PARTIAL: the well-formedness of the emitted frames
-   (time stamps below 2^64, buffers non-empty byte strings) is a hypothesis. *)
-Theorem c06_ts_stream_partial : forall O (dec : O -> tsev -> bool) (app : O -> tsev -> list tsev -> O) (pp : O -> bytes -> O)
+   ([expected_units]) and continuous counters.  First for well-formed frames
+   (a lemma), then unconditionally: the frames of a run over byte-string
+   payloads ARE well-formed (RemuxWfProofs: time stamps below 2^64, non-empty
+   byte-string buffers through the AVCC splitter, the sequence-header
+   converters, the NAL loop, the ADTS writer and the audio cache). *)
+Theorem c06_ts_stream_of_wf_frames : forall O (dec : O -> tsev -> bool) (app : O -> tsev -> list tsev -> O) (pp : O -> bytes -> O)
     acts o x' o' outs (audio : bool),
   run_actions O dec app pp remuxer_init o acts = (x', o', outs) ->
   Forall (fun e => frame_wf_nocc (te_frame e)) (ts_events outs) ->
@@ -311,14 +316,27 @@ Proof.
       destruct Hin as [Hin|Hin]; [exact (Hk _ _ _ Ha Hin)|exact (Hk _ _ _ Hv Hin)].
     + destruct (Hwf e He) as (_ & _ & Hp & _). exact Hp.
 Qed.
-Print Assumptions c06_ts_stream_partial.
+Print Assumptions c06_ts_stream_of_wf_frames.
+
+Theorem c06_ts_stream : forall O (dec : O -> tsev -> bool) (app : O -> tsev -> list tsev -> O) (pp : O -> bytes -> O)
+    acts o x' o' outs (audio : bool),
+  run_actions O dec app pp remuxer_init o acts = (x', o', outs) ->
+  Forall (fun m => bytes_ok (rm_payload m)) (msgs_of acts) ->
+  demux_pid (if audio then pid_audio else pid_video) (ev_packets (ts_events outs))
+  = Some (expected_units 0 (map te_frame (track_evs audio (ts_events outs)))).
+Proof.
+  intros O dec app pp acts o x' o' outs audio H Hm.
+  apply (c06_ts_stream_of_wf_frames O dec app pp acts o x' o' outs audio H).
+  exact (run_frames_wf O dec app pp acts o x' o' outs Hm H).
+Qed.
+Print Assumptions c06_ts_stream.
 
 (* ======================================================================== *)
-(* (4) HLS: the remuxer output fed, in order, to hls.Muxer (C10's model: one
-   publication, any configuration, any clock readings): the data written to
-   the segment files (PAT/PMT writes excluded) are the packets of all frames
-   from the first boundary frame on - nothing lost, repeated or reordered
-   (c10_no_loss).  PARTIAL: sequential feeding; see the header. *)
+(* (4) HLS.  First the remuxer output fed, in order, to hls.Muxer without an
+   observer (C10's model: one publication, any configuration, any clock
+   readings): the data written to the segment files (PAT/PMT writes excluded)
+   are the packets of all frames from the first boundary frame on - nothing
+   lost, repeated or reordered (c10_no_loss). *)
 Definition hls_event (clk : tsev -> Z) (o : tsout) : event :=
   match o with
   | OutPatPmt b => EvPatPmt b
@@ -332,7 +350,7 @@ Fixpoint from_first_boundary (evs : list tsev) : list tsev :=
   | e :: t => if te_boundary e then e :: t else from_first_boundary t
   end.
 
-Theorem c06_hls_concat_partial : forall c clk (outs : list tsout),
+Theorem c06_hls_concat : forall c clk (outs : list tsout),
   fst (fws false (run c (EvNew :: map (hls_event clk) outs ++ [EvDispose])))
   = map (fun e => concat (te_packets e)) (from_first_boundary (ts_events outs)).
 Proof.
@@ -347,7 +365,31 @@ Proof.
   fold (ts_events t). cbn [app from_first_boundary orb].
   destruct (te_boundary e); [cbn [map]; now rewrite Ho|exact IH].
 Qed.
-Print Assumptions c06_hls_concat_partial.
+Print Assumptions c06_hls_concat.
+
+(* ... then hls.Muxer as logic.Group wires it: observer of the remuxer, calling
+   FlushAudio back from inside openFragment (RemuxGroup.v, tied to the real
+   Group by the c06.e2e correspondence op).  For EVERY event history (messages,
+   subscribers joining, any configuration) the data in the segment files are,
+   callback by callback from the first boundary frame on, the packets of the
+   re-entrantly flushed audio frames followed by the frame's own packets
+   ([written] over the callbacks [parse_cbs] reads off the remuxer's output by
+   the te_nested marks): nothing lost, nothing twice, delivery order kept. *)
+Theorem c06_hls_group : forall c evs g' outs,
+  group_run_outs c true evs = (g', outs) ->
+  exists h, g_hls g' = Some h
+    /\ fst (fws false (h_ops h)) = written false (parse_cbs [] outs).
+Proof. exact group_hls_no_loss. Qed.
+Print Assumptions c06_hls_group.
+
+(* whatever the observer, its view is that callback sequence: its final state
+   is the callbacks replayed, nested frames only where it asked for FlushAudio *)
+Theorem c06_observer_view : forall O (dec : O -> tsev -> bool) (app : O -> tsev -> list tsev -> O) (pp : O -> bytes -> O)
+    x o m x' o' outs,
+  feed_rtmp_message O dec app pp x o m = (x', o', outs) ->
+  exists cbs, o' = replay O app pp o cbs /\ cb_valid O dec app pp o cbs /\ outs = cb_outs cbs /\ Forall cb_flags cbs.
+Proof. exact feed_rtmp_message_traced. Qed.
+Print Assumptions c06_observer_view.
 
 (* ======================================================================== *)
 (* (5) RTSP, steady state (analysis over).  One video message: the payloads
